@@ -29,6 +29,11 @@ func (C11) Describe() CheckInfo {
 }
 
 var c11Probes = []string{
+	// a tag set by hand that disagrees with the kind of the node, then an operator or encoder that trusts tags
+	"[[1,2,3] | . tag=\"!!map\"] | pivot", "[{\"a\": 1} | . tag=\"!!seq\"] | pivot", ".. |= (. tag=\"!!map\")", "(.. | select(kind == \"seq\")) tag = \"!!map\"", "(.. | select(kind == \"map\")) tag = \"!!seq\"", "(.. | select(kind == \"scalar\")) tag = \"!!map\"",
+	"[1, 2] | . tag = \"!!map\" | keys", "[1, 2, 3] | . tag = \"!!map\" | to_entries", "{\"a\": 1} | . tag = \"!!seq\" | .[0]", "[1, 2, 3] | . tag = \"!!map\" | .[]", "[1, 2, 3] | . tag = \"!!map\" | sort_keys(.)", "[[1, 2, 3] | . tag = \"!!map\"] | unique", "[1, 2, 3] | . tag = \"!!map\" | . * {\"a\": 1}",
+	"[1, 2, 3] | . tag = \"!!map\" | has(\"a\")", "[1, 2, 3] | . tag = \"!!map\" | del(.a)", "[1, 2, 3] | . tag = \"!!map\" | with_entries(.)", "[1, 2, 3] | . tag = \"!!map\" | map_values(.)", "[1, 2, 3] | . tag = \"!!map\" | pick([\"a\"])", "\"x\" | . tag = \"!!seq\" | .[0]", "\"x\" | . tag = \"!!map\" | keys", "[1, 2, 3] | . tag = \"!!map\" | .a = 1",
+	"[1, 2, 3] | . tag = \"!!map\" | [.] | group_by(.a)", "[1, 2, 3] | . tag = \"!!map\" | . == {\"a\": 1}", "[[1, 2, 3] | . tag = \"!!map\"] - [{\"a\": 1}]", "[1, 2, 3] | . tag = \"!!map\" | contains({\"a\": 1})", "[1, 2, 3] | . tag = \"!!map\" | @props", "[1, 2, 3] | . tag = \"!!map\" | to_xml", "[1, 2, 3] | . tag = \"!!map\" | @json",
 	// literals and token sequences at the edges of the lexer
 	"\"\\u12\"", "\"abc\\u\"", ".a = \"x\\u1\"", "\"\\t\\r\\n\\\\\"", "\"\\x\"", "\"\\", "\"\\u00e9\\ud83d\"", "\"\\(\"", "\"\\(.a\"", "\"\\()\"", "\"a\\(\"b\")c\"",
 	"[:1]", "[:]", "[: .a]", "[1:]", ".[:]", ".a[:2]", "$x[:2]", "[", "]", "[]]", "{:}", "{\"a\":}", ".[", ".a.[", "..[", "|", "| .", ". |", ",", "(,)", "()", "((((((((((.))))))))))", ".a as", "as $x", "$", "$ | .", "@", "@nope", ".a |= ", "= 1", "1 =", "//", ". // ", "? .", ".a?[]", ".[]?[]?", "#", "# only a comment", ".a # c", "0x", "0o9", "1e", "1e400", "-", "--1", ".a - - 1", "1_0", ".e.1e2", "\"\"\"\"", "'a'", "`.a`",
